@@ -1,3 +1,4 @@
+import TantivyModel.Proofs.TinySet
 import TantivyModel.Proofs.DocSet.Basic
 import TantivyModel.Proofs.DocSet.Default
 import TantivyModel.Proofs.DocSet.ReqOpt
@@ -939,5 +940,38 @@ example : Vec.V (Vec.init [1, 5, 9] 2) [1, 5, 9] := ⟨rfl, by
   intro x hx
   simp only [List.mem_cons, List.mem_nil_iff, or_false] at hx
   rcases hx with rfl | rfl | rfl <;> decide⟩
+
+/-! ### `TinySet` — translated from common/src/bitset.rs on every run (`Gen/PureFns.lean`)
+
+The 64-bit bucket underlying `BitSet`, `BitSetDocSet` and the buffered union's window was a
+contract of the doc-set models; these theorems discharge it for the source text itself: element
+`i` is bit `i`, and `pop_lowest` (Kernighan's `n & (n - 1)`) returns the minimum and removes
+exactly it. -/
+section TinySetSrc
+open TantivyModel.Gen.Fn TantivyModel.TinySet
+
+theorem C13_src_tinyset_insert_remove_contains (s : BitVec 64) (el : BitVec 32) (h : el.toNat < 64) :
+    (∀ i, mem (tinyset_insert s el) i = (mem s i || decide (i = el.toNat)))
+    ∧ (∀ i, mem (tinyset_remove s el) i = (mem s i && !decide (i = el.toNat)))
+    ∧ tinyset_contains s el = mem s el.toNat
+    ∧ (∀ i, mem (tinyset_singleton el) i = decide (i = el.toNat)) :=
+  ⟨mem_insert s el h, mem_remove s el h, contains_eq_mem s el h, mem_singleton el h⟩
+
+theorem C13_src_tinyset_ranges (b : BitVec 32) (h : b.toNat < 64) :
+    (∀ i, mem (tinyset_range_lower b) i = decide (i < b.toNat))
+    ∧ (∀ i, mem (tinyset_range_greater_or_equal b) i = (decide (b.toNat ≤ i) && decide (i < 64)))
+    ∧ (∀ i, mem tinyset_full i = decide (i < 64)) ∧ (∀ i, mem tinyset_empty i = false) :=
+  ⟨mem_range_lower b h, mem_range_greater_or_equal b h, mem_full, mem_empty⟩
+
+theorem C13_src_tinyset_pop_lowest (s : BitVec 64) :
+    ((∀ i, mem s i = false) → tinyset_pop_lowest s = (none, s))
+    ∧ ((∃ i, mem s i = true) → ∃ l s', tinyset_pop_lowest s = (some l, s') ∧ l.toNat < 64
+        ∧ mem s l.toNat = true ∧ (∀ j, j < l.toNat → mem s j = false)
+        ∧ ∀ i, mem s' i = (mem s i && !decide (i = l.toNat))) :=
+  ⟨pop_lowest_empty s, pop_lowest_spec s⟩
+
+example : ∃ i, mem (0x50#64) i = true := ⟨4, by decide⟩
+example : tinyset_pop_lowest 0x50#64 = (some 4#32, 0x40#64) := by decide +kernel
+end TinySetSrc
 
 end TantivyModel.C13
